@@ -50,6 +50,7 @@ DevOrderZero == {"HBondOrderZero"}
 DevTwice == {"HBondedTwice"}
 DevShift == {"ShiftsCoords"}
 DevStale == {"StaleAdjacency"}
+DevReadopt == {"ReadoptsShared"}
 
 View == sv
 ObsAtoms == [i \in DOMAIN atoms |-> [el |-> atoms[i].el, fc |-> atoms[i].fc, sp |-> atoms[i].sp,
